@@ -84,6 +84,11 @@ def check(ctx):
         if not b and v[0] == "comp" and v[1] == "list" and len(v[3]) == 1 and not v[3][0][2] and v[2][0] == "const":
             r = match(("call", ("global", "range"), (V("n"),), ()), v[3][0][1])
             b = {"c": v[2], "n": r["n"]} if r else None
+        if not b:
+            # list(itertools.repeat(c, n))
+            r = match(("call", ("global", "list"), (("call", ("global", "repeat"), (V("c"), V("n")), ()),), ()), v) or \
+                match(("call", ("global", "list"), (("meth", ("global", "itertools"), "repeat", (V("c"), V("n")), ()),), ()), v)
+            b = r or None
         if not b or b["c"][0] != "const":
             ctx.unrec("R1", "rhs-init", where(inits[0]), f"rhs is not created as n copies of a constant: {show(v)[:120]}")
         else:
@@ -421,7 +426,11 @@ def _r6(ctx):
                 # the method with the private helpers it was split into put back (a list built by `self._helper(cols)` is
                 # the list the helper's statements build); _create_species stays the primitive the rule is about
                 try:
-                    fn = pkg.expanded(ci.name, mname, keep=("_create_species",))
+                    import copy as _copy
+                    from ..normalize import const_setattr, unroll_static_loops
+                    fn = _copy.deepcopy(pkg.expanded(ci.name, mname, keep=("_create_species",)))
+                    # ... and a table of (attribute name, value) rows written out: `setattr(self, "reactants", v)` is `self.reactants = v`
+                    fn = const_setattr(unroll_static_loops(fn))
                 except (AnalysisError, RecursionError):
                     pass
                 src = ast.unparse(fn)
@@ -755,6 +764,7 @@ MUTANTS = [
     {"name": "fex-pipeline-rewrites-text", "file": TEMPLATES["cvode"], "old": "    {% for eq in ode.fex -%}\n        {{ eq | stmwrap(80, 8) }}\n    {% endfor %}\n", "new": "    {{ ode.fex | map(\"replace\", \" - \", \" + \") | map(\"stmwrap\", 80, 8) | map(\"suffix\", \"\\n    \") | join }}\n", "rules": ["R8"]},
     {"name": "fex-pipeline-suffix-text", "file": TEMPLATES["cvode"], "old": "    {% for eq in ode.fex -%}\n        {{ eq | stmwrap(80, 8) }}\n    {% endfor %}\n", "new": "    {{ ode.fex | map(\"stmwrap\", 80, 8) | map(\"suffix\", \" + 0.0\\n    \") | join }}\n", "rules": ["R8"]},
     {"name": "signed-chain-of-rows-signs-swapped", "file": T, "old": '            for specidx in rspecidx:\n                rhs[specidx] += f" - {rate_sym}[{rl}]*{rsym_mul}"\n            for specidx in pspecidx:\n                rhs[specidx] += f" + {rate_sym}[{rl}]*{rsym_mul}"\n', "new": '            import itertools\n            for sign, specidx in itertools.chain(zip(itertools.repeat(" + "), rspecidx), zip(itertools.repeat(" - "), pspecidx)):\n                rhs[specidx] += sign + f"{rate_sym}[{rl}]*{rsym_mul}"\n', "rules": ["R2", "R3"]},
+    {"name": "reactants-setattr-table-unfiltered", "file": 'naunet/reactions/reaction.py', "old": '        self.reactants = [\n            self._create_species(r.strip())\n            for r in rps[0:3]\n            if self._create_species(r.strip())\n        ]\n', "new": '        for attr, cols in (("reactants", rps[0:3]),):\n            setattr(self, attr, [self._create_species(r.strip()) for r in cols])\n', "rules": ["R6"]},
     {"name": "kernel-replace-swapped", "file": TEMPLATES["cvode"], "old": 'replace("y[IDX", "y_cur[IDX") | stmwrap(80, 12)', "new": 'replace("y_cur[IDX", "y[IDX") | stmwrap(80, 12)', "rules": ["R8"]},
     {"name": "stmwrap-breaks-words", "file": "naunet/utilities.py", "old": "break_long_words=False", "new": "break_long_words=True", "rules": ["R8"]},
     {"name": "textwrapper-breaks-words", "file": "naunet/utilities.py", "old": "wrappedlist = wrap(text, width - indent, break_long_words=False)", "new": "import textwrap\n    wrappedlist = textwrap.TextWrapper(width=width - indent).wrap(text)", "rules": ["R8"]},
@@ -804,5 +814,8 @@ BENIGN = [
     {"name": "modifier-terms-from-generator", "edits": [
         {"file": T, "old": '    def _prepare_ode_content(\n', "new": '    def _modifier_terms(self, species, species_kwargs, ode_modifier):\n        for sname, expr in ode_modifier.items():\n            sidx = species.index(Species(sname, **species_kwargs))\n            for fact, dep in zip(expr["factors"], expr["reactants"]):\n                depspec = [Species(d, **species_kwargs) for d in dep]\n                yield sidx, fact, depspec, [f"y[IDX_{d.alias}]" for d in depspec]\n\n    def _prepare_ode_content(\n'},
         {"file": T, "old": '        for sname, expr in ode_modifier.items():\n            spec = Species(sname, **species_kwargs)\n            sidx = species.index(spec)\n            for fact, dep in zip(expr["factors"], expr["reactants"]):\n                depspec = [Species(d, **species_kwargs) for d in dep]\n                depsym = [f"y[IDX_{d.alias}]" for d in depspec]\n', "new": '        for sidx, fact, depspec, depsym in self._modifier_terms(species, species_kwargs, ode_modifier):\n'}]},
+    {"name": "reactants-setattr-table", "file": 'naunet/reactions/reaction.py', "old": '        self.reactants = [\n            self._create_species(r.strip())\n            for r in rps[0:3]\n            if self._create_species(r.strip())\n        ]\n', "new": '        for attr, cols in (("reactants", rps[0:3]),):\n            setattr(self, attr, [self._create_species(r.strip()) for r in cols if self._create_species(r.strip())])\n'},
+    {"name": "rhs-init-repeat", "file": T, "old": '        rhs = ["0.0"] * n_eqns\n', "new": '        import itertools\n        rhs = list(itertools.repeat("0.0", n_eqns))\n'},
+    {"name": "abundance-symbols-percent-format", "file": T, "old": 'y = [f"y[IDX_{x.alias}]" for x in species]', "new": 'y = ["y[IDX_%s]" % x.alias for x in species]'},
     {"name": "template-reindent", "file": TEMPLATES["cvode"], "old": "    {% for eq in ode.fex -%}\n        {{ eq | stmwrap(80, 8) }}", "new": "    {% for eq in ode.fex -%}\n      {{ eq|stmwrap(80, 6) }}"},
 ]
